@@ -495,6 +495,48 @@ pub proof fn lemma_shr_exact64(frac: u64, t0: u32, tz: u32)
         lemma_shl_one_is_pow2(tz as u64);
     }
 }
+// ------------------------------------------------------------------ u32-word sequences (equality word loop)
+pub proof fn lemma_wle_top_step(s: Seq<u32>, i: int)
+    requires 0 <= i < s.len()
+    ensures wle(s.subrange(i, s.len() as int)) == s[i] as int + 0x1_0000_0000 * wle(s.subrange(i + 1, s.len() as int))
+{
+    let t = s.subrange(i, s.len() as int);
+    assert(t[0] == s[i]);
+    assert(t.drop_first() =~= s.subrange(i + 1, s.len() as int));
+}
+pub proof fn lemma_wle_nonneg(s: Seq<u32>)
+    ensures wle(s) >= 0
+    decreases s.len()
+{
+    if s.len() > 0 { lemma_wle_nonneg(s.drop_first()); }
+}
+/// a suffix that still contains the (non-zero) most significant word is positive
+pub proof fn lemma_wle_suffix_pos(s: Seq<u32>, i: int)
+    requires 0 <= i < s.len(), s.last() != 0
+    ensures wle(s.subrange(i, s.len() as int)) > 0
+    decreases s.len() - i
+{
+    lemma_wle_top_step(s, i);
+    lemma_wle_nonneg(s.subrange(i + 1, s.len() as int));
+    if i + 1 < s.len() { lemma_wle_suffix_pos(s, i + 1); }
+    else { assert(s[i] == s.last()); }
+}
+pub proof fn lemma_wle_empty_suffix(s: Seq<u32>)
+    ensures wle(s.subrange(s.len() as int, s.len() as int)) == 0
+{
+    assert(s.subrange(s.len() as int, s.len() as int).len() == 0);
+}
+/// one step of the word-wise comparison  a ?= b * p  (w = 2^32):  wide = bk*p + carry = tb + w*carry2
+pub proof fn lemma_eq_word_step(p: int, bk: int, ak: int, carry: int, carry2: int, sa: int, sb_: int, wide: int, tb: int)
+    requires wide == bk * p + carry, wide == tb + 0x1_0000_0000 * carry2, 0 <= tb < 0x1_0000_0000, 0 <= ak < 0x1_0000_0000
+    ensures ak == tb ==> (bk + 0x1_0000_0000 * sb_) * p + carry - (ak + 0x1_0000_0000 * sa) == 0x1_0000_0000 * (sb_ * p + carry2 - sa),
+            ak != tb ==> (bk + 0x1_0000_0000 * sb_) * p + carry - (ak + 0x1_0000_0000 * sa) != 0
+{
+    let q = sb_ * p;
+    assert((bk + 0x1_0000_0000 * sb_) * p == bk * p + 0x1_0000_0000 * q) by (nonlinear_arith) requires q == sb_ * p;
+    let k = q + carry2 - sa;
+    assert((bk + 0x1_0000_0000 * sb_) * p + carry - (ak + 0x1_0000_0000 * sa) == (tb - ak) + 0x1_0000_0000 * k);
+}
 /// 5^k * 2^k == 10^k
 pub proof fn lemma_pow5_pow2(k: int)
     requires k >= 0
